@@ -83,14 +83,21 @@ func (b *payPerInterval) OnUpdate(node store.Node, peers []store.Node) (store.Ba
 		return b.Store.GetNodeBalance(node.ID)
 	}
 
-	total := new(big.Int)
-	for _, peer := range peers {
-		b.Store.AddNodeBalance(peer.ID, credit)
-		total.Add(total, credit)
-	}
-
+	// Debit the client first, then credit each peer. If any step fails, undo
+	// the steps already taken so that a failed update moves no credit.
+	total := new(big.Int).Mul(credit, big.NewInt(int64(len(peers))))
 	if err := b.Store.AddNodeBalance(node.ID, new(big.Int).Neg(total)); err != nil {
 		return store.Balance{}, err
+	}
+	for i, peer := range peers {
+		if err := b.Store.AddNodeBalance(peer.ID, credit); err != nil {
+			refund := new(big.Int).Neg(credit)
+			for _, paid := range peers[:i] {
+				b.Store.AddNodeBalance(paid.ID, refund)
+			}
+			b.Store.AddNodeBalance(node.ID, total)
+			return store.Balance{}, err
+		}
 	}
 	balance, err := b.Store.GetNodeBalance(node.ID)
 	if err != nil {
